@@ -96,6 +96,9 @@ func init() {
 		"runtime.Gosched":                      func(fr *frame, args []value) value { fr.i.yield(); return nil },
 		"runtime.GOROOT":                       extGOROOT,
 		"runtime.Caller":                       extCaller,
+		"runtime.Callers":                      extCallers,
+		"runtime.CallersFrames":                extCallersFrames,
+		"(*runtime.Frames).Next":               extFramesNext,
 		"runtime.FuncForPC":                    extFuncForPC,
 		"(*runtime.Func).Name":                 extFuncName,
 		"(*sync.Mutex).Lock":                   extMutexLock,
@@ -263,15 +266,84 @@ func extCaller(fr *frame, args []value) value {
 }
 
 func (i *interpreter) pcFor(name string) uintptr {
+	return i.pcForFile(name, "")
+}
+
+// pcForFile returns a stand-in program counter for (function, file).
+func (i *interpreter) pcForFile(name, file string) uintptr {
 	tab, _ := i.path.extra["pctab"].([]string)
+	files, _ := i.path.extra["pcfiles"].([]string)
 	for k, n := range tab {
-		if n == name {
+		if n == name && files[k] == file {
 			return uintptr(k + 1)
 		}
 	}
 	tab = append(tab, name)
+	files = append(files, file)
 	i.path.extra["pctab"] = tab
+	i.path.extra["pcfiles"] = files
 	return uintptr(len(tab))
+}
+
+// extCallers implements runtime.Callers over the interpreter's stack
+// (skip 0 = Callers itself, 1 = its caller, ...), followed by the virtual
+// testing.tRunner and runtime.goexit frames.
+func extCallers(fr *frame, args []value) value {
+	i := fr.i
+	skip := int(asInt64(i, args[0]))
+	pcs := args[1].([]value)
+	var all []uintptr
+	all = append(all, i.pcForFile("runtime.Callers", "/goroot/src/runtime/extern.go"))
+	for f := fr.caller; f != nil; f = f.caller {
+		all = append(all, i.pcForFile(f.fn.String(), frameFile(f)))
+	}
+	all = append(all, i.pcForFile("testing.tRunner", "/goroot/src/testing/testing.go"))
+	all = append(all, i.pcForFile("runtime.goexit", "/goroot/src/runtime/asm_amd64.s"))
+	n := 0
+	for k := skip; k < len(all) && n < len(pcs); k++ {
+		pcs[n] = all[k]
+		n++
+	}
+	return n
+}
+
+func extCallersFrames(fr *frame, args []value) value {
+	i := fr.i
+	T := i.namedType("runtime", "Frames")
+	p := newStruct(T)
+	var pcs []uintptr
+	for _, v := range args[0].([]value) {
+		pcs = append(pcs, uintptr(asInt64(i, v)))
+	}
+	i.path.extra[fmt.Sprintf("frames:%p", p)] = &framesState{pcs: pcs}
+	return p
+}
+
+type framesState struct {
+	pcs []uintptr
+	pos int
+}
+
+func extFramesNext(fr *frame, args []value) value {
+	i := fr.i
+	p := args[0].(*value)
+	st, _ := i.path.extra[fmt.Sprintf("frames:%p", p)].(*framesState)
+	FT := i.namedType("runtime", "Frame")
+	f := zero(FT).(structure)
+	if st == nil || st.pos >= len(st.pcs) {
+		return tuple{f, false}
+	}
+	pc := st.pcs[st.pos]
+	st.pos++
+	tab, _ := i.path.extra["pctab"].([]string)
+	files, _ := i.path.extra["pcfiles"].([]string)
+	if pc >= 1 && int(pc) <= len(tab) {
+		f[fieldIndex(FT, "PC")] = pc
+		f[fieldIndex(FT, "Function")] = tab[pc-1]
+		f[fieldIndex(FT, "File")] = files[pc-1]
+		f[fieldIndex(FT, "Line")] = 1
+	}
+	return tuple{f, st.pos < len(st.pcs)}
 }
 
 func extFuncForPC(fr *frame, args []value) value {
